@@ -1197,6 +1197,7 @@ func (h *hist) scriptCronBetween() {
 	h.opUStart(us0, "POST", "/c", 800, []string{}, false)
 	k := len(h.calls) - 1
 	h.opSticky([]string{"get_resp", "mc_get"})
+	h.opWait(250) // at least two polls of the waiting handler fail before the response is there
 	h.opARespond(ag0, "b0", h.lastK(), 1000500, 200, true, []string{})
 	h.opCron("admin")
 	h.opSticky([]string{})
@@ -1205,6 +1206,7 @@ func (h *hist) scriptCronBetween() {
 	h.opUStart(us0, "POST", "/c2", 800, []string{}, false)
 	k = len(h.calls) - 1
 	h.opSticky([]string{"get_resp", "mc_get"})
+	h.opWait(250)
 	h.opARespond(ag0, "b0", h.lastK(), 900, 200, true, []string{})
 	h.opCron("admin")
 	h.opSticky([]string{})
